@@ -179,10 +179,22 @@ def r3_dump(ctx):
             file_, mode, _ = F.open_args(opens[0].expr)
             okw = okw and file_ is not None and src(file_) == pth and mode in ('w', 'w+', 'wt')
     ctx.check(okw, 'R3', w.loc, w.qualname, 'write-once', '_write opens the path for writing and writes the content exactly once')
-    mk = [n for n in walk_local(w.node) if isinstance(n, ast.Call) and src(n.func) in ('os.makedirs', 'Path.mkdir')]
-    opn = [n for n in walk_local(w.node) if isinstance(n, ast.Call) and F.is_name(n.func, 'open')]
-    okm = len(mk) >= 1 and opn and all(m.lineno < opn[0].lineno for m in mk) and \
-        any(k.arg == 'exist_ok' and src(k.value) == 'True' for k in mk[0].keywords)
+    # on every path that opens the file: the directory is known to exist (the existence test held) or it was created before
+    okm, n_open = True, 0
+    for sp in sps:
+        if sp.end == 'raise':
+            continue
+        idx_open = [i for i, e in enumerate(sp.events) if e.kind == 'with' and isinstance(e.expr, ast.Call) and F.is_name(e.expr.func, 'open')]
+        if not idx_open:
+            continue
+        n_open += 1
+        made = [i for i, e in enumerate(sp.events) if e.kind == 'expr' and isinstance(e.expr, ast.Call)
+                and (src(e.expr.func) == 'os.makedirs' or (isinstance(e.expr.func, ast.Attribute) and e.expr.func.attr == 'mkdir'))
+                and any(k.arg == 'exist_ok' and src(k.value) == 'True' for k in e.expr.keywords)]
+        exists = any(F.forced(sp.condition(), a, True) for a in G.atoms_of(sp.condition())
+                     if a.startswith('os.path.exists(') or a.startswith('os.path.isdir(') or a.endswith('.exists()') or a.endswith('.is_dir()'))
+        okm = okm and (exists or any(i < idx_open[0] for i in made))
+    okm = okm and n_open > 0
     ctx.check(okm, 'R3', w.loc, w.qualname, 'creates-directories', '_write creates the missing parent directories before opening the file')
 
 
